@@ -36,11 +36,12 @@ def arith_fingerprint(fn):
             if short.startswith(('div_ceil', 'next_multiple_of', 'checked_', 'wrapping_', 'saturating_', 'pow', 'isqrt')):
                 calls[short] += 1
     # canonical form of a rounding-up division: `(a + b - 1) / b` and `a.div_ceil(b)` are the same operation
-    while c[('Add', ())] > 0 and c[('Sub', ('1', ))] > 0 and c[('Div', ())] > 0:
-        c[('Add', ())] -= 1
-        c[('Sub', ('1', ))] -= 1
-        c[('Div', ())] -= 1
-        calls['div_ceil'] += 1
+    for k in [k[1] for k in list(c) if k[0] == 'Div']:
+        while c[('Add', k)] > 0 and c[('Sub', ('1', ))] > 0 and c[('Div', k)] > 0:
+            c[('Add', k)] -= 1
+            c[('Sub', ('1', ))] -= 1
+            c[('Div', k)] -= 1
+            calls['div_ceil'] += 1
     c = +c
     return c, calls
 
